@@ -21,5 +21,5 @@ mkdir -p "$D/verif"
 git -C /verif archive HEAD | tar -x -C "$D/verif"
 # also take uncommitted edits of the simulator sources
 rsync -a --exclude build --exclude replays --exclude 'sim/target' /verif/sim /verif/shadow /verif/shim /verif/check /verif/known_findings.json "$D/verif/"
-grep -rl "/repo/" "$D/verif/sim/src" "$D/verif/sim/Cargo.toml" "$D/verif/shadow/cli/Cargo.toml" | xargs sed -i "s#/repo/#$D/repo/#g"
+grep -rl "/repo/" "$D/verif/sim/src" "$D/verif/sim/Cargo.toml" "$D/verif/shadow/cli/Cargo.toml" "$D/verif/miri_c20/Cargo.toml" | xargs sed -i "s#/repo/#$D/repo/#g"
 echo "$D ready"
